@@ -54,12 +54,16 @@ def _make_config_parser(cfg_file, overrides, additional, remove, species, exclud
     for override in itertools.chain.from_iterable(overrides):
       over_tuple = _create_override_tuple(override)
       k = (over_tuple.section, over_tuple.key)
+      # a repeated item takes the place of its latest occurrence: keys that differ
+      # only in whitespace name the same item and are applied in command line order
+      override_dict.pop(k, None)
       override_dict[k] = over_tuple
 
   if not remove is None:
     for override in itertools.chain.from_iterable(remove):
       over_tuple = _create_override_tuple(override, False)
       k = (over_tuple.section, over_tuple.key)
+      override_dict.pop(k, None)
       override_dict[k] = over_tuple
 
   overrides_list = list(override_dict.values())
